@@ -86,6 +86,18 @@ func gateCase(g *ref.Gate, k *ref.GLConsts) fieldCase {
 		for _, o := range want {
 			rv = append(rv, o[0], o[1])
 		}
+		// evaluating a gate must leave the row as it was (the openings are read again by the gates that
+		// follow, by the permutation argument and by the FRI openings): wires and constants are read back
+		if len(ov) == len(rv) {
+			for i := range wires {
+				ov = append(ov, wires[i][0].Limb, wires[i][1].Limb)
+				rv = append(rv, rw[i][0], rw[i][1])
+			}
+			for i := range consts {
+				ov = append(ov, consts[i][0].Limb, consts[i][1].Limb)
+				rv = append(rv, rc[i][0], rc[i][1])
+			}
+		}
 		return ov, rv
 	}}
 }
@@ -209,6 +221,7 @@ func runC15(r *Run) {
 	add(&ref.Gate{Kind: "BaseSum", NumLimbs: 3, Base: 4})
 	// parameters with two decimal digits where the real circuits have none (a numeral read in another
 	// radix, or cut after its first digit, still resolves - to another gate)
+	add(&ref.Gate{Kind: "BaseSum", NumLimbs: 64, Base: 2}) // one above what plonky2's default configuration picks
 	add(&ref.Gate{Kind: "BaseSum", NumLimbs: 2, Base: 10})
 	add(&ref.Gate{Kind: "BaseSum", NumLimbs: 5, Base: 16})
 	add(&ref.Gate{Kind: "Constant", NumConsts: 11})
